@@ -36,8 +36,21 @@ fn gen_hist(rng: &mut Rng) -> Hist {
     let schedule = *rng.pick(&["no-overlap", "audio-inside-video", "round-robin", "random", "random", "pairwise"]);
     let mut pool: Vec<u32> = Vec::new();
     while pool.len() < 6 {
-        let c = super::foreign::pick_csid(rng);
-        if !pool.contains(&c) {
+        // aliasing candidates: ids that collide under truncation or masking of an earlier one
+        let c = match pool.last() {
+            Some(&b) if rng.chance(1, 3) => {
+                let d = *rng.pick(&[64u32, 256, 65536, 192, 1]);
+                if b + d <= 65599 {
+                    b + d
+                } else if b > d + 1 {
+                    b - d
+                } else {
+                    super::foreign::pick_csid(rng)
+                }
+            }
+            _ => super::foreign::pick_csid(rng),
+        };
+        if !pool.contains(&c) && (2..=65599).contains(&c) {
             pool.push(c);
         }
     }
@@ -61,7 +74,8 @@ fn gen_hist(rng: &mut Rng) -> Hist {
             }
             let m = Msg {
                 type_id: *rng.pick(&[8u8, 9, 18, 20]),
-                msid: *rng.pick(&[1u32, 1, 2]),
+                // message stream ids sometimes equal to a chunk stream id of the group
+                msid: if rng.chance(1, 5) { pool[rng.usize(0, 5)] } else { *rng.pick(&[1u32, 1, 2]) },
                 ts,
                 data,
             };
